@@ -1353,6 +1353,9 @@ func (r *rewriter) rewriteSync(body *ast.BlockStmt) {
 		if !ok {
 			return e
 		}
+		if name, ok := pkgSel(c.Fun, "time"); ok && name == "AfterFunc" && len(c.Args) == 2 {
+			return r.rtCall("AfterFunc", c.Args[0], c.Args[1], intLit(r.site("timer", c.Pos())))
+		}
 		sel := r.pkg.info.Selections[se]
 		if sel == nil || sel.Kind() != types.MethodVal {
 			return e
